@@ -69,8 +69,22 @@ theorem cinv_init : CInv (init o) := by
 
 /-! ### provenance of values and order of events -/
 
+/-- the call an event belongs to -/
+def evCall : Ev → Nat
+  | .inv c _ _ _ => c
+  | .abandon c => c
+  | .deq c => c
+  | .discard c => c
+  | .seg c _ => c
+  | .fin c _ _ _ => c
+  | .cancel c _ _ _ => c
+  | .replyErr c => c
+  | .resp c _ => c
+  | .respErr c => c
+
 /-- what must have happened before an event -/
 def Pre (p : List Ev) : Ev → Prop
+  | .inv c _ _ _ => ∀ e, e ∈ p → evCall e < c
   | .seg c _ => ∃ cl m a, Ev.inv c cl m a ∈ p
   | .fin c m a _ => ∃ cl, Ev.inv c cl m a ∈ p
   | .cancel c m a _ => ∃ cl, Ev.inv c cl m a ∈ p
@@ -111,9 +125,10 @@ structure RInv (s : State o) : Prop where
   chan : ∀ ch r, (s.chans ch).val = some r → ch < s.n ∧ Ev.fin ch (s.calls ch).m (s.calls ch).a r ∈ s.tr
   val : ∀ c r, (s.calls c).cl = .value r → Ev.fin c (s.calls c).m (s.calls c).a r ∈ s.tr ∧ Ev.resp c r ∈ s.tr
   ord : Ordered s.tr
+  evlt : ∀ e, e ∈ s.tr → evCall e < s.n
 
 theorem rinv_init : RInv (init o) := by
-  refine ⟨?_, ?_, ?_, ?_, ?_⟩ <;> simp [init, noCall, Ordered, OrderedFrom]
+  refine ⟨?_, ?_, ?_, ?_, ?_, ?_⟩ <;> simp [init, noCall, Ordered, OrderedFrom]
 
 
 theorem cinv_step_issue (cfg : Cfg) (s s' : State o) (l : Label) (hw : WF s) (hs : SInv cfg s) (hc : CInv s)
@@ -553,6 +568,7 @@ theorem cinv_step (cfg : Cfg) (s s' : State o) (l : Label) (hw : WF s) (hs : SIn
   | purge c => exact cinv_step_purge cfg s s' _ hw hs hc trivial h
   | serveEnd => exact cinv_step_serveEnd cfg s s' _ hw hs hc trivial h
 
+
 theorem rinv_step_issue (cfg : Cfg) (s s' : State o) (l : Label) (hw : WF s) (hr : RInv s)
     (hl : match l with
       | .issue .. => True
@@ -561,15 +577,17 @@ theorem rinv_step_issue (cfg : Cfg) (s s' : State o) (l : Label) (hw : WF s) (hr
   have hfr := hw.fresh
   have hrch := hw.rch
   have hnch := hw.nch
-  obtain ⟨f1, f2, f3, f4, f5⟩ := hr
+  obtain ⟨f1, f2, f3, f4, f5, f6⟩ := hr
   cases l <;> simp only at hl <;> step_inv h
-  all_goals (refine ⟨?_, ?_, ?_, ?_, ?_⟩)
+  all_goals (refine ⟨?_, ?_, ?_, ?_, ?_, ?_⟩)
   all_goals first
     | (simpa using f5)
     | (intro c r hh; have e1 := f1 c; have e2 := f2 c r; have e3 := f3 c r; have e4 := f4 c r; have efr := hfr c; have er := hrch c
        simp [upd_apply, startExec_calls, Stage.passive] at e1 e2 e3 e4 efr er hh ⊢; grind)
     | (intro c hh; have e1 := f1 c; have efr := hfr c; have er := hrch c
        simp [upd_apply, startExec_calls, Stage.passive] at e1 efr er hh ⊢; grind)
+    | (intro e he; have e6 := f6 e; simp [evCall] at he e6 ⊢; grind [evCall])
+    | (simp [OrderedFrom, Pre]; exact ⟨f5, f6⟩)
     | (simp [OrderedFrom, Pre]; refine ⟨f5, ?_⟩; first
         | exact ⟨_, _, _, f1 _ (by fin_arith)⟩
         | exact ⟨_, f1 _ (by fin_arith)⟩
@@ -589,15 +607,17 @@ theorem rinv_step_abandon (cfg : Cfg) (s s' : State o) (l : Label) (hw : WF s) (
   have hfr := hw.fresh
   have hrch := hw.rch
   have hnch := hw.nch
-  obtain ⟨f1, f2, f3, f4, f5⟩ := hr
+  obtain ⟨f1, f2, f3, f4, f5, f6⟩ := hr
   cases l <;> simp only at hl <;> step_inv h
-  all_goals (refine ⟨?_, ?_, ?_, ?_, ?_⟩)
+  all_goals (refine ⟨?_, ?_, ?_, ?_, ?_, ?_⟩)
   all_goals first
     | (simpa using f5)
     | (intro c r hh; have e1 := f1 c; have e2 := f2 c r; have e3 := f3 c r; have e4 := f4 c r; have efr := hfr c; have er := hrch c
        simp [upd_apply, startExec_calls, Stage.passive] at e1 e2 e3 e4 efr er hh ⊢; grind)
     | (intro c hh; have e1 := f1 c; have efr := hfr c; have er := hrch c
        simp [upd_apply, startExec_calls, Stage.passive] at e1 efr er hh ⊢; grind)
+    | (intro e he; have e6 := f6 e; simp [evCall] at he e6 ⊢; grind [evCall])
+    | (simp [OrderedFrom, Pre]; exact ⟨f5, f6⟩)
     | (simp [OrderedFrom, Pre]; refine ⟨f5, ?_⟩; first
         | exact ⟨_, _, _, f1 _ (by fin_arith)⟩
         | exact ⟨_, f1 _ (by fin_arith)⟩
@@ -617,15 +637,17 @@ theorem rinv_step_abandonEarly (cfg : Cfg) (s s' : State o) (l : Label) (hw : WF
   have hfr := hw.fresh
   have hrch := hw.rch
   have hnch := hw.nch
-  obtain ⟨f1, f2, f3, f4, f5⟩ := hr
+  obtain ⟨f1, f2, f3, f4, f5, f6⟩ := hr
   cases l <;> simp only at hl <;> step_inv h
-  all_goals (refine ⟨?_, ?_, ?_, ?_, ?_⟩)
+  all_goals (refine ⟨?_, ?_, ?_, ?_, ?_, ?_⟩)
   all_goals first
     | (simpa using f5)
     | (intro c r hh; have e1 := f1 c; have e2 := f2 c r; have e3 := f3 c r; have e4 := f4 c r; have efr := hfr c; have er := hrch c
        simp [upd_apply, startExec_calls, Stage.passive] at e1 e2 e3 e4 efr er hh ⊢; grind)
     | (intro c hh; have e1 := f1 c; have efr := hfr c; have er := hrch c
        simp [upd_apply, startExec_calls, Stage.passive] at e1 efr er hh ⊢; grind)
+    | (intro e he; have e6 := f6 e; simp [evCall] at he e6 ⊢; grind [evCall])
+    | (simp [OrderedFrom, Pre]; exact ⟨f5, f6⟩)
     | (simp [OrderedFrom, Pre]; refine ⟨f5, ?_⟩; first
         | exact ⟨_, _, _, f1 _ (by fin_arith)⟩
         | exact ⟨_, f1 _ (by fin_arith)⟩
@@ -645,15 +667,17 @@ theorem rinv_step_connLoss (cfg : Cfg) (s s' : State o) (l : Label) (hw : WF s) 
   have hfr := hw.fresh
   have hrch := hw.rch
   have hnch := hw.nch
-  obtain ⟨f1, f2, f3, f4, f5⟩ := hr
+  obtain ⟨f1, f2, f3, f4, f5, f6⟩ := hr
   cases l <;> simp only at hl <;> step_inv h
-  all_goals (refine ⟨?_, ?_, ?_, ?_, ?_⟩)
+  all_goals (refine ⟨?_, ?_, ?_, ?_, ?_, ?_⟩)
   all_goals first
     | (simpa using f5)
     | (intro c r hh; have e1 := f1 c; have e2 := f2 c r; have e3 := f3 c r; have e4 := f4 c r; have efr := hfr c; have er := hrch c
        simp [upd_apply, startExec_calls, Stage.passive] at e1 e2 e3 e4 efr er hh ⊢; grind)
     | (intro c hh; have e1 := f1 c; have efr := hfr c; have er := hrch c
        simp [upd_apply, startExec_calls, Stage.passive] at e1 efr er hh ⊢; grind)
+    | (intro e he; have e6 := f6 e; simp [evCall] at he e6 ⊢; grind [evCall])
+    | (simp [OrderedFrom, Pre]; exact ⟨f5, f6⟩)
     | (simp [OrderedFrom, Pre]; refine ⟨f5, ?_⟩; first
         | exact ⟨_, _, _, f1 _ (by fin_arith)⟩
         | exact ⟨_, f1 _ (by fin_arith)⟩
@@ -673,15 +697,17 @@ theorem rinv_step_dropClients (cfg : Cfg) (s s' : State o) (l : Label) (hw : WF 
   have hfr := hw.fresh
   have hrch := hw.rch
   have hnch := hw.nch
-  obtain ⟨f1, f2, f3, f4, f5⟩ := hr
+  obtain ⟨f1, f2, f3, f4, f5, f6⟩ := hr
   cases l <;> simp only at hl <;> step_inv h
-  all_goals (refine ⟨?_, ?_, ?_, ?_, ?_⟩)
+  all_goals (refine ⟨?_, ?_, ?_, ?_, ?_, ?_⟩)
   all_goals first
     | (simpa using f5)
     | (intro c r hh; have e1 := f1 c; have e2 := f2 c r; have e3 := f3 c r; have e4 := f4 c r; have efr := hfr c; have er := hrch c
        simp [upd_apply, startExec_calls, Stage.passive] at e1 e2 e3 e4 efr er hh ⊢; grind)
     | (intro c hh; have e1 := f1 c; have efr := hfr c; have er := hrch c
        simp [upd_apply, startExec_calls, Stage.passive] at e1 efr er hh ⊢; grind)
+    | (intro e he; have e6 := f6 e; simp [evCall] at he e6 ⊢; grind [evCall])
+    | (simp [OrderedFrom, Pre]; exact ⟨f5, f6⟩)
     | (simp [OrderedFrom, Pre]; refine ⟨f5, ?_⟩; first
         | exact ⟨_, _, _, f1 _ (by fin_arith)⟩
         | exact ⟨_, f1 _ (by fin_arith)⟩
@@ -701,15 +727,17 @@ theorem rinv_step_enqueue (cfg : Cfg) (s s' : State o) (l : Label) (hw : WF s) (
   have hfr := hw.fresh
   have hrch := hw.rch
   have hnch := hw.nch
-  obtain ⟨f1, f2, f3, f4, f5⟩ := hr
+  obtain ⟨f1, f2, f3, f4, f5, f6⟩ := hr
   cases l <;> simp only at hl <;> step_inv h
-  all_goals (refine ⟨?_, ?_, ?_, ?_, ?_⟩)
+  all_goals (refine ⟨?_, ?_, ?_, ?_, ?_, ?_⟩)
   all_goals first
     | (simpa using f5)
     | (intro c r hh; have e1 := f1 c; have e2 := f2 c r; have e3 := f3 c r; have e4 := f4 c r; have efr := hfr c; have er := hrch c
        simp [upd_apply, startExec_calls, Stage.passive] at e1 e2 e3 e4 efr er hh ⊢; grind)
     | (intro c hh; have e1 := f1 c; have efr := hfr c; have er := hrch c
        simp [upd_apply, startExec_calls, Stage.passive] at e1 efr er hh ⊢; grind)
+    | (intro e he; have e6 := f6 e; simp [evCall] at he e6 ⊢; grind [evCall])
+    | (simp [OrderedFrom, Pre]; exact ⟨f5, f6⟩)
     | (simp [OrderedFrom, Pre]; refine ⟨f5, ?_⟩; first
         | exact ⟨_, _, _, f1 _ (by fin_arith)⟩
         | exact ⟨_, f1 _ (by fin_arith)⟩
@@ -729,15 +757,17 @@ theorem rinv_step_sendFail (cfg : Cfg) (s s' : State o) (l : Label) (hw : WF s) 
   have hfr := hw.fresh
   have hrch := hw.rch
   have hnch := hw.nch
-  obtain ⟨f1, f2, f3, f4, f5⟩ := hr
+  obtain ⟨f1, f2, f3, f4, f5, f6⟩ := hr
   cases l <;> simp only at hl <;> step_inv h
-  all_goals (refine ⟨?_, ?_, ?_, ?_, ?_⟩)
+  all_goals (refine ⟨?_, ?_, ?_, ?_, ?_, ?_⟩)
   all_goals first
     | (simpa using f5)
     | (intro c r hh; have e1 := f1 c; have e2 := f2 c r; have e3 := f3 c r; have e4 := f4 c r; have efr := hfr c; have er := hrch c
        simp [upd_apply, startExec_calls, Stage.passive] at e1 e2 e3 e4 efr er hh ⊢; grind)
     | (intro c hh; have e1 := f1 c; have efr := hfr c; have er := hrch c
        simp [upd_apply, startExec_calls, Stage.passive] at e1 efr er hh ⊢; grind)
+    | (intro e he; have e6 := f6 e; simp [evCall] at he e6 ⊢; grind [evCall])
+    | (simp [OrderedFrom, Pre]; exact ⟨f5, f6⟩)
     | (simp [OrderedFrom, Pre]; refine ⟨f5, ?_⟩; first
         | exact ⟨_, _, _, f1 _ (by fin_arith)⟩
         | exact ⟨_, f1 _ (by fin_arith)⟩
@@ -757,15 +787,17 @@ theorem rinv_step_closeSeen (cfg : Cfg) (s s' : State o) (l : Label) (hw : WF s)
   have hfr := hw.fresh
   have hrch := hw.rch
   have hnch := hw.nch
-  obtain ⟨f1, f2, f3, f4, f5⟩ := hr
+  obtain ⟨f1, f2, f3, f4, f5, f6⟩ := hr
   cases l <;> simp only at hl <;> step_inv h
-  all_goals (refine ⟨?_, ?_, ?_, ?_, ?_⟩)
+  all_goals (refine ⟨?_, ?_, ?_, ?_, ?_, ?_⟩)
   all_goals first
     | (simpa using f5)
     | (intro c r hh; have e1 := f1 c; have e2 := f2 c r; have e3 := f3 c r; have e4 := f4 c r; have efr := hfr c; have er := hrch c
        simp [upd_apply, startExec_calls, Stage.passive] at e1 e2 e3 e4 efr er hh ⊢; grind)
     | (intro c hh; have e1 := f1 c; have efr := hfr c; have er := hrch c
        simp [upd_apply, startExec_calls, Stage.passive] at e1 efr er hh ⊢; grind)
+    | (intro e he; have e6 := f6 e; simp [evCall] at he e6 ⊢; grind [evCall])
+    | (simp [OrderedFrom, Pre]; exact ⟨f5, f6⟩)
     | (simp [OrderedFrom, Pre]; refine ⟨f5, ?_⟩; first
         | exact ⟨_, _, _, f1 _ (by fin_arith)⟩
         | exact ⟨_, f1 _ (by fin_arith)⟩
@@ -785,15 +817,17 @@ theorem rinv_step_recvReply (cfg : Cfg) (s s' : State o) (l : Label) (hw : WF s)
   have hfr := hw.fresh
   have hrch := hw.rch
   have hnch := hw.nch
-  obtain ⟨f1, f2, f3, f4, f5⟩ := hr
+  obtain ⟨f1, f2, f3, f4, f5, f6⟩ := hr
   cases l <;> simp only at hl <;> step_inv h
-  all_goals (refine ⟨?_, ?_, ?_, ?_, ?_⟩)
+  all_goals (refine ⟨?_, ?_, ?_, ?_, ?_, ?_⟩)
   all_goals first
     | (simpa using f5)
     | (intro c r hh; have e1 := f1 c; have e2 := f2 c r; have e3 := f3 c r; have e4 := f4 c r; have efr := hfr c; have er := hrch c
        simp [upd_apply, startExec_calls, Stage.passive] at e1 e2 e3 e4 efr er hh ⊢; grind)
     | (intro c hh; have e1 := f1 c; have efr := hfr c; have er := hrch c
        simp [upd_apply, startExec_calls, Stage.passive] at e1 efr er hh ⊢; grind)
+    | (intro e he; have e6 := f6 e; simp [evCall] at he e6 ⊢; grind [evCall])
+    | (simp [OrderedFrom, Pre]; exact ⟨f5, f6⟩)
     | (simp [OrderedFrom, Pre]; refine ⟨f5, ?_⟩; first
         | exact ⟨_, _, _, f1 _ (by fin_arith)⟩
         | exact ⟨_, f1 _ (by fin_arith)⟩
@@ -813,15 +847,17 @@ theorem rinv_step_dequeue (cfg : Cfg) (s s' : State o) (l : Label) (hw : WF s) (
   have hfr := hw.fresh
   have hrch := hw.rch
   have hnch := hw.nch
-  obtain ⟨f1, f2, f3, f4, f5⟩ := hr
+  obtain ⟨f1, f2, f3, f4, f5, f6⟩ := hr
   cases l <;> simp only at hl <;> step_inv h
-  all_goals (refine ⟨?_, ?_, ?_, ?_, ?_⟩)
+  all_goals (refine ⟨?_, ?_, ?_, ?_, ?_, ?_⟩)
   all_goals first
     | (simpa using f5)
     | (intro c r hh; have e1 := f1 c; have e2 := f2 c r; have e3 := f3 c r; have e4 := f4 c r; have efr := hfr c; have er := hrch c
        simp [upd_apply, startExec_calls, Stage.passive] at e1 e2 e3 e4 efr er hh ⊢; grind)
     | (intro c hh; have e1 := f1 c; have efr := hfr c; have er := hrch c
        simp [upd_apply, startExec_calls, Stage.passive] at e1 efr er hh ⊢; grind)
+    | (intro e he; have e6 := f6 e; simp [evCall] at he e6 ⊢; grind [evCall])
+    | (simp [OrderedFrom, Pre]; exact ⟨f5, f6⟩)
     | (simp [OrderedFrom, Pre]; refine ⟨f5, ?_⟩; first
         | exact ⟨_, _, _, f1 _ (by fin_arith)⟩
         | exact ⟨_, f1 _ (by fin_arith)⟩
@@ -841,15 +877,17 @@ theorem rinv_step_acquire (cfg : Cfg) (s s' : State o) (l : Label) (hw : WF s) (
   have hfr := hw.fresh
   have hrch := hw.rch
   have hnch := hw.nch
-  obtain ⟨f1, f2, f3, f4, f5⟩ := hr
+  obtain ⟨f1, f2, f3, f4, f5, f6⟩ := hr
   cases l <;> simp only at hl <;> step_inv h
-  all_goals (refine ⟨?_, ?_, ?_, ?_, ?_⟩)
+  all_goals (refine ⟨?_, ?_, ?_, ?_, ?_, ?_⟩)
   all_goals first
     | (simpa using f5)
     | (intro c r hh; have e1 := f1 c; have e2 := f2 c r; have e3 := f3 c r; have e4 := f4 c r; have efr := hfr c; have er := hrch c
        simp [upd_apply, startExec_calls, Stage.passive] at e1 e2 e3 e4 efr er hh ⊢; grind)
     | (intro c hh; have e1 := f1 c; have efr := hfr c; have er := hrch c
        simp [upd_apply, startExec_calls, Stage.passive] at e1 efr er hh ⊢; grind)
+    | (intro e he; have e6 := f6 e; simp [evCall] at he e6 ⊢; grind [evCall])
+    | (simp [OrderedFrom, Pre]; exact ⟨f5, f6⟩)
     | (simp [OrderedFrom, Pre]; refine ⟨f5, ?_⟩; first
         | exact ⟨_, _, _, f1 _ (by fin_arith)⟩
         | exact ⟨_, f1 _ (by fin_arith)⟩
@@ -869,15 +907,17 @@ theorem rinv_step_execStep (cfg : Cfg) (s s' : State o) (l : Label) (hw : WF s) 
   have hfr := hw.fresh
   have hrch := hw.rch
   have hnch := hw.nch
-  obtain ⟨f1, f2, f3, f4, f5⟩ := hr
+  obtain ⟨f1, f2, f3, f4, f5, f6⟩ := hr
   cases l <;> simp only at hl <;> step_inv h
-  all_goals (refine ⟨?_, ?_, ?_, ?_, ?_⟩)
+  all_goals (refine ⟨?_, ?_, ?_, ?_, ?_, ?_⟩)
   all_goals first
     | (simpa using f5)
     | (intro c r hh; have e1 := f1 c; have e2 := f2 c r; have e3 := f3 c r; have e4 := f4 c r; have efr := hfr c; have er := hrch c
        simp [upd_apply, startExec_calls, Stage.passive] at e1 e2 e3 e4 efr er hh ⊢; grind)
     | (intro c hh; have e1 := f1 c; have efr := hfr c; have er := hrch c
        simp [upd_apply, startExec_calls, Stage.passive] at e1 efr er hh ⊢; grind)
+    | (intro e he; have e6 := f6 e; simp [evCall] at he e6 ⊢; grind [evCall])
+    | (simp [OrderedFrom, Pre]; exact ⟨f5, f6⟩)
     | (simp [OrderedFrom, Pre]; refine ⟨f5, ?_⟩; first
         | exact ⟨_, _, _, f1 _ (by fin_arith)⟩
         | exact ⟨_, f1 _ (by fin_arith)⟩
@@ -897,15 +937,17 @@ theorem rinv_step_execCancel (cfg : Cfg) (s s' : State o) (l : Label) (hw : WF s
   have hfr := hw.fresh
   have hrch := hw.rch
   have hnch := hw.nch
-  obtain ⟨f1, f2, f3, f4, f5⟩ := hr
+  obtain ⟨f1, f2, f3, f4, f5, f6⟩ := hr
   cases l <;> simp only at hl <;> step_inv h
-  all_goals (refine ⟨?_, ?_, ?_, ?_, ?_⟩)
+  all_goals (refine ⟨?_, ?_, ?_, ?_, ?_, ?_⟩)
   all_goals first
     | (simpa using f5)
     | (intro c r hh; have e1 := f1 c; have e2 := f2 c r; have e3 := f3 c r; have e4 := f4 c r; have efr := hfr c; have er := hrch c
        simp [upd_apply, startExec_calls, Stage.passive] at e1 e2 e3 e4 efr er hh ⊢; grind)
     | (intro c hh; have e1 := f1 c; have efr := hfr c; have er := hrch c
        simp [upd_apply, startExec_calls, Stage.passive] at e1 efr er hh ⊢; grind)
+    | (intro e he; have e6 := f6 e; simp [evCall] at he e6 ⊢; grind [evCall])
+    | (simp [OrderedFrom, Pre]; exact ⟨f5, f6⟩)
     | (simp [OrderedFrom, Pre]; refine ⟨f5, ?_⟩; first
         | exact ⟨_, _, _, f1 _ (by fin_arith)⟩
         | exact ⟨_, f1 _ (by fin_arith)⟩
@@ -925,15 +967,17 @@ theorem rinv_step_deliver (cfg : Cfg) (s s' : State o) (l : Label) (hw : WF s) (
   have hfr := hw.fresh
   have hrch := hw.rch
   have hnch := hw.nch
-  obtain ⟨f1, f2, f3, f4, f5⟩ := hr
+  obtain ⟨f1, f2, f3, f4, f5, f6⟩ := hr
   cases l <;> simp only at hl <;> step_inv h
-  all_goals (refine ⟨?_, ?_, ?_, ?_, ?_⟩)
+  all_goals (refine ⟨?_, ?_, ?_, ?_, ?_, ?_⟩)
   all_goals first
     | (simpa using f5)
     | (intro c r hh; have e1 := f1 c; have e2 := f2 c r; have e3 := f3 c r; have e4 := f4 c r; have efr := hfr c; have er := hrch c
        simp [upd_apply, startExec_calls, Stage.passive] at e1 e2 e3 e4 efr er hh ⊢; grind)
     | (intro c hh; have e1 := f1 c; have efr := hfr c; have er := hrch c
        simp [upd_apply, startExec_calls, Stage.passive] at e1 efr er hh ⊢; grind)
+    | (intro e he; have e6 := f6 e; simp [evCall] at he e6 ⊢; grind [evCall])
+    | (simp [OrderedFrom, Pre]; exact ⟨f5, f6⟩)
     | (simp [OrderedFrom, Pre]; refine ⟨f5, ?_⟩; first
         | exact ⟨_, _, _, f1 _ (by fin_arith)⟩
         | exact ⟨_, f1 _ (by fin_arith)⟩
@@ -953,15 +997,17 @@ theorem rinv_step_report (cfg : Cfg) (s s' : State o) (l : Label) (hw : WF s) (h
   have hfr := hw.fresh
   have hrch := hw.rch
   have hnch := hw.nch
-  obtain ⟨f1, f2, f3, f4, f5⟩ := hr
+  obtain ⟨f1, f2, f3, f4, f5, f6⟩ := hr
   cases l <;> simp only at hl <;> step_inv h
-  all_goals (refine ⟨?_, ?_, ?_, ?_, ?_⟩)
+  all_goals (refine ⟨?_, ?_, ?_, ?_, ?_, ?_⟩)
   all_goals first
     | (simpa using f5)
     | (intro c r hh; have e1 := f1 c; have e2 := f2 c r; have e3 := f3 c r; have e4 := f4 c r; have efr := hfr c; have er := hrch c
        simp [upd_apply, startExec_calls, Stage.passive] at e1 e2 e3 e4 efr er hh ⊢; grind)
     | (intro c hh; have e1 := f1 c; have efr := hfr c; have er := hrch c
        simp [upd_apply, startExec_calls, Stage.passive] at e1 efr er hh ⊢; grind)
+    | (intro e he; have e6 := f6 e; simp [evCall] at he e6 ⊢; grind [evCall])
+    | (simp [OrderedFrom, Pre]; exact ⟨f5, f6⟩)
     | (simp [OrderedFrom, Pre]; refine ⟨f5, ?_⟩; first
         | exact ⟨_, _, _, f1 _ (by fin_arith)⟩
         | exact ⟨_, f1 _ (by fin_arith)⟩
@@ -981,15 +1027,17 @@ theorem rinv_step_serveErr (cfg : Cfg) (s s' : State o) (l : Label) (hw : WF s) 
   have hfr := hw.fresh
   have hrch := hw.rch
   have hnch := hw.nch
-  obtain ⟨f1, f2, f3, f4, f5⟩ := hr
+  obtain ⟨f1, f2, f3, f4, f5, f6⟩ := hr
   cases l <;> simp only at hl <;> step_inv h
-  all_goals (refine ⟨?_, ?_, ?_, ?_, ?_⟩)
+  all_goals (refine ⟨?_, ?_, ?_, ?_, ?_, ?_⟩)
   all_goals first
     | (simpa using f5)
     | (intro c r hh; have e1 := f1 c; have e2 := f2 c r; have e3 := f3 c r; have e4 := f4 c r; have efr := hfr c; have er := hrch c
        simp [upd_apply, startExec_calls, Stage.passive] at e1 e2 e3 e4 efr er hh ⊢; grind)
     | (intro c hh; have e1 := f1 c; have efr := hfr c; have er := hrch c
        simp [upd_apply, startExec_calls, Stage.passive] at e1 efr er hh ⊢; grind)
+    | (intro e he; have e6 := f6 e; simp [evCall] at he e6 ⊢; grind [evCall])
+    | (simp [OrderedFrom, Pre]; exact ⟨f5, f6⟩)
     | (simp [OrderedFrom, Pre]; refine ⟨f5, ?_⟩; first
         | exact ⟨_, _, _, f1 _ (by fin_arith)⟩
         | exact ⟨_, f1 _ (by fin_arith)⟩
@@ -1009,15 +1057,17 @@ theorem rinv_step_purge (cfg : Cfg) (s s' : State o) (l : Label) (hw : WF s) (hr
   have hfr := hw.fresh
   have hrch := hw.rch
   have hnch := hw.nch
-  obtain ⟨f1, f2, f3, f4, f5⟩ := hr
+  obtain ⟨f1, f2, f3, f4, f5, f6⟩ := hr
   cases l <;> simp only at hl <;> step_inv h
-  all_goals (refine ⟨?_, ?_, ?_, ?_, ?_⟩)
+  all_goals (refine ⟨?_, ?_, ?_, ?_, ?_, ?_⟩)
   all_goals first
     | (simpa using f5)
     | (intro c r hh; have e1 := f1 c; have e2 := f2 c r; have e3 := f3 c r; have e4 := f4 c r; have efr := hfr c; have er := hrch c
        simp [upd_apply, startExec_calls, Stage.passive] at e1 e2 e3 e4 efr er hh ⊢; grind)
     | (intro c hh; have e1 := f1 c; have efr := hfr c; have er := hrch c
        simp [upd_apply, startExec_calls, Stage.passive] at e1 efr er hh ⊢; grind)
+    | (intro e he; have e6 := f6 e; simp [evCall] at he e6 ⊢; grind [evCall])
+    | (simp [OrderedFrom, Pre]; exact ⟨f5, f6⟩)
     | (simp [OrderedFrom, Pre]; refine ⟨f5, ?_⟩; first
         | exact ⟨_, _, _, f1 _ (by fin_arith)⟩
         | exact ⟨_, f1 _ (by fin_arith)⟩
@@ -1037,15 +1087,17 @@ theorem rinv_step_serveEnd (cfg : Cfg) (s s' : State o) (l : Label) (hw : WF s) 
   have hfr := hw.fresh
   have hrch := hw.rch
   have hnch := hw.nch
-  obtain ⟨f1, f2, f3, f4, f5⟩ := hr
+  obtain ⟨f1, f2, f3, f4, f5, f6⟩ := hr
   cases l <;> simp only at hl <;> step_inv h
-  all_goals (refine ⟨?_, ?_, ?_, ?_, ?_⟩)
+  all_goals (refine ⟨?_, ?_, ?_, ?_, ?_, ?_⟩)
   all_goals first
     | (simpa using f5)
     | (intro c r hh; have e1 := f1 c; have e2 := f2 c r; have e3 := f3 c r; have e4 := f4 c r; have efr := hfr c; have er := hrch c
        simp [upd_apply, startExec_calls, Stage.passive] at e1 e2 e3 e4 efr er hh ⊢; grind)
     | (intro c hh; have e1 := f1 c; have efr := hfr c; have er := hrch c
        simp [upd_apply, startExec_calls, Stage.passive] at e1 efr er hh ⊢; grind)
+    | (intro e he; have e6 := f6 e; simp [evCall] at he e6 ⊢; grind [evCall])
+    | (simp [OrderedFrom, Pre]; exact ⟨f5, f6⟩)
     | (simp [OrderedFrom, Pre]; refine ⟨f5, ?_⟩; first
         | exact ⟨_, _, _, f1 _ (by fin_arith)⟩
         | exact ⟨_, f1 _ (by fin_arith)⟩
